@@ -24,7 +24,9 @@ func c01Patterns() []string {
 	p := []string{"||example.org^", "||google.com^", "|https://a.com/", "example", "/ads/x", "a.com|", "://1.2.", "||1.2.3.4^", "google", "ab",
 		"/banner_ad", "adsa6", "adsgp", "/adsa6/adsgp", "http://", "|https://", "|http://example", "ws://", "/ex[a]mple?/", "/goog+le\\.com/",
 		"||example.org/ads/*", "oogle.c", "xample.o", "example.org/ads/x.js", "/ads/", "ad", "*", "^ads^", "example.org/ads/x.js?a=b&c=d",
-		"/ads?/", "/(banner|ads)/", "x.js|", "|ws://x"}
+		"/ads?/", "/(banner|ads)/", "x.js|", "|ws://x",
+		// non-ASCII shortcuts: windows of 5 bytes cut through multi-byte characters
+		"||пример.рф^", "реклама", "/реклама/", "/ads/баннер", "ёж"}
 	for _, c := range windowColliders {
 		p = append(p, c[0], c[1], "/"+c[0]+"/x", c[1]+"^")
 	}
@@ -36,7 +38,8 @@ var c01Pats = c01Patterns()
 func c01URLs() []string {
 	u := []string{"http://example.org/ads/x.js", "https://a.com/", "http://google.com/adsa6/adsgp", "http://x.com/banner_ad", "http://x.com/q?adsgp",
 		"https://www.example.org/ads/", "http://1.2.3.4/ab", "http://example.org/ads/x.js?a=b&c=d", "ws://x.com/ads", "http://x.com/ads/ads/ads/x.js",
-		"http://example.org/example.org/example.org", "https://google.com", "http://a.com", "http://x.com/ad", "http://adsa6"}
+		"http://example.org/example.org/example.org", "https://google.com", "http://a.com", "http://x.com/ad", "http://adsa6",
+		"http://пример.рф/реклама", "http://x.com/ads/баннер.gif", "http://x.com/РЕКЛАМА/ёж", "http://localhost/ads/x.js"}
 	for _, c := range windowColliders {
 		u = append(u, "http://x.com/"+c[0], "http://x.com/q/"+c[1], "http://x.com/"+c[0]+"/x/"+c[0], "http://"+c[1])
 	}
